@@ -91,11 +91,29 @@ fn strategy() -> impl Strategy<Value = Case> {
                 pre
             }),
         ],
+        prop::bool::weighted(0.3),
     )
-        .prop_map(|(installed, backup, package, cmds)| Case { installed, backup, package, cmds })
+        .prop_map(|(installed, backup, package, mut cmds, same_length)| {
+            // an upgrade often changes a value, not the size of a file: new packages whose data files have the
+            // lengths of the installed ones and other content
+            if same_length {
+                if let Some((pk, _)) = &installed {
+                    let twist = |v: &Vec<u8>, k: u8| -> Vec<u8> { v.iter().map(|b| b ^ (1 + (k & 1))).collect() };
+                    for c in cmds.iter_mut() {
+                        if let Cmd::Repackage(p) = c {
+                            p.cfg = twist(&pk.cfg, p.version);
+                            p.ebpf = twist(&pk.ebpf, p.version);
+                            p.unit = twist(&pk.unit, p.version);
+                            p.missing = 0;
+                        }
+                    }
+                }
+            }
+            Case { installed, backup, package, cmds }
+        })
 }
 
-const RULE: &str = "generator: initial state = (nothing installed | a version installed with all four files or a subset) x (no backup | a backup, possibly stale or partial) x a package with generated file contents and modes (the executable is a shell script answering --version followed by arbitrary bytes; data files are arbitrary bytes incl. empty), then 1-8 commands from {backup, install, restore (the command line always deletes the backup afterwards: its delete_backup value cannot be given), uninstall service, uninstall package, purge, repackage (the package content changes between installs)}; each command is the REAL setup binary run chroot'ed in an overlay over '/'. oracle: an in-memory model of the four system paths, the backup folder and the package (bytes and modes) compared after every command; the overlay's upper directory is diffed around every command and every changed path must be one of the four system paths, the backup folder or the tool's log; the stand-in systemctl's call log must be the expected sequence, 'stop' seeing the pre-command hashes and 'start' the post-command hashes. non-trivial: sequence containing backup -> install of different content -> restore, or a restore without a backup, or an install over a partially present version; distinct by hash of the case.";
+const RULE: &str = "generator: initial state = (nothing installed | a version installed with all four files or a subset) x (no backup | a backup, possibly stale or partial) x a package with generated file contents and modes (the executable is a shell script answering --version followed by arbitrary bytes; data files are arbitrary bytes incl. empty), then 1-8 commands from {backup, install, restore (the command line always deletes the backup afterwards: its delete_backup value cannot be given), uninstall service, uninstall package, purge, repackage (the package content changes between installs; in 30% of the cases the new data files have the same lengths as the installed ones and other content)}; each command is the REAL setup binary run chroot'ed in an overlay over '/'. oracle: an in-memory model of the four system paths, the backup folder and the package (bytes and modes) compared after every command; the overlay's upper directory is diffed around every command and every changed path must be one of the four system paths, the backup folder or the tool's log; the stand-in systemctl's call log must be the expected sequence, 'stop' seeing the pre-command hashes and 'start' the post-command hashes. non-trivial: sequence containing backup -> install of different content -> restore, or a restore without a backup, or an install over a partially present version; distinct by hash of the case.";
 
 fn cstr(s: &str) -> CString {
     CString::new(s).unwrap()
